@@ -23,7 +23,7 @@ def gen_table(rd, name: str, n_rows: Optional[int] = None, shape: Optional[int] 
         n = rd.choice([40, 100])  # beyond any "small table" fast path or sample size
     wide_ids = n > 38
     shape = shape if shape is not None else rd.randrange(4)
-    ids = rd.sample(range(1, 400 if wide_ids else 40), n)
+    ids = rd.sample(range(1, max(400, 3 * n) if wide_ids else 40), n)
     cols = [{"name": "id", "kind": "key", "values": ids}]
     cols.append({"name": "g", "kind": "group", "values": [rd.choice(GROUP_S[: rd.choice([1, 2, 3])]) for _ in range(n)]})
     if shape in (1, 3):
@@ -458,10 +458,15 @@ def gen_steps(r, cols: Dict[str, str], tables: Dict[str, Dict[str, str]], max_st
                 o2 = [shared] + ([keys[0]] if keys and keys[0] != shared else [])
                 rev2 = [] if shared in rev else [shared]
                 steps.append({"t": "order_rows", "cols": o2, "reverse": rev2, "limit": r.choice([None, 1, 2, 3])})
-            if kind == "order_limit" and r.random() < 0.25:
-                # a second ordering on the very same columns with another direction, after a limit
-                rev2 = [c for c in order if c not in rev] if r.random() < 0.7 else list(rev)
-                steps.append({"t": "order_rows", "cols": list(order), "reverse": rev2, "limit": r.choice([None, None, 1, 2])})
+            if kind == "order_limit" and r.random() < 0.3:
+                if len(order) > 1 and r.random() < 0.4:
+                    # the same key set in another priority order, same directions, a tighter limit
+                    o2 = list(reversed(order))
+                    steps.append({"t": "order_rows", "cols": o2, "reverse": list(rev), "limit": r.choice([1, 1, 2])})
+                else:
+                    # a second ordering on the very same columns with another direction, after a limit
+                    rev2 = [c for c in order if c not in rev] if r.random() < 0.7 else list(rev)
+                    steps.append({"t": "order_rows", "cols": list(order), "reverse": rev2, "limit": r.choice([None, None, 1, 2])})
             elif kind == "order_limit" and len(names) > len(order) and r.random() < 0.4:
                 # a limit in the middle of a pipeline whose consumer no longer carries (all of) the order columns
                 victim = r.choice(order)
